@@ -1269,3 +1269,89 @@ Proof.
   - intros out Hd. apply bind_Ok in Hd as (o & Hrec & Hd). inversion Hd; subst out.
     destruct (IHj o Hrec) as [Jo Oo]. rewrite O1, O2 in Oo. now apply HRj.
 Qed.
+
+(* ------------------------------------------------------------------ rows of the three shapes of a list step *)
+Lemma column_list n t' l : zlen l = n -> column n (TList None None t', VList l) = Ok (map (fun x => (t', x)) l).
+Proof. intros H. unfold column. now rewrite H, Z.eqb_refl. Qed.
+Lemma column_list_bad n t' l : zlen l <> n -> column n (TList None None t', VList l) = Err EValue.
+Proof. intros H. unfold column. destruct (Z.eqb_spec (zlen l) n); [contradiction|reflexivity]. Qed.
+Lemma column_leaf n t v : is_listT t = false -> badT t = false -> column n (t, v) = Ok (repeat (t, v) (Z.to_nat n)).
+Proof. intros Hl Hb. unfold column. destruct t as [| |[z|] [b|] t0| | |]; try discriminate; reflexivity. Qed.
+Lemma map_snd_pair {A B} (t : A) (l : list B) : map snd (map (fun x => (t, x)) l) = l.
+Proof. rewrite map_map. cbn. apply map_id. Qed.
+Lemma map_snd_repeat {A B} (t : A) (v : B) n : map snd (repeat (t, v) n) = repeat v n.
+Proof. induction n; cbn; congruence. Qed.
+
+Lemma jagT_list_form t : jagT t = true -> is_listT t = true -> t = TList None None (elemT t).
+Proof. destruct t as [| |[z|] [b|] t0| | |]; try discriminate; reflexivity. Qed.
+
+Lemma spec_row_LL op fuel t1 t2 l1 l2 :
+  jagT t1 = true -> jagT t2 = true -> is_listT t1 = true -> is_listT t2 = true ->
+  spec_v op false (S fuel) [(t1, VList l1); (t2, VList l2)] =
+  if zlen l2 =? zlen l1 then rmap VList (mapM (spec_v op false fuel) (rows2 (elemT t1) (elemT t2) l1 l2)) else Err EValue.
+Proof.
+  intros H1 H2 L1 L2.
+  assert (O1 : is_optT t1 = false) by (destruct t1 as [| |[z|] [b|] t0| | |]; try discriminate; reflexivity).
+  assert (O2 : is_optT t2 = false) by (destruct t2 as [| |[z|] [b|] t0| | |]; try discriminate; reflexivity).
+  rewrite spec_list_row by (try assumption; now rewrite L1).
+  rewrite (jagT_list_form t1 H1 L1) at 1 2. rewrite (jagT_list_form t2 H2 L2) at 1 2. cbn [first_var_len bind].
+  rewrite column_list by reflexivity. cbn [bind]. destruct (Z.eqb_spec (zlen l2) (zlen l1)) as [E|E].
+  - rewrite column_list by exact E. cbn [bind]. now rewrite !map_snd_pair.
+  - now rewrite column_list_bad by exact E.
+Qed.
+Lemma spec_row_LN op fuel t1 t2 l1 y :
+  jagT t1 = true -> jagT t2 = true -> is_listT t1 = true -> is_listT t2 = false -> is_optT t2 = false ->
+  spec_v op false (S fuel) [(t1, VList l1); (t2, y)] =
+  rmap VList (mapM (spec_v op false fuel) (rows2 (elemT t1) t2 l1 (repeat y (length l1)))).
+Proof.
+  intros H1 H2 L1 L2 O2.
+  assert (O1 : is_optT t1 = false) by (destruct t1 as [| |[z|] [b|] t0| | |]; try discriminate; reflexivity).
+  rewrite spec_list_row by (try assumption; now rewrite L1).
+  rewrite (jagT_list_form t1 H1 L1) at 1 2. cbn [first_var_len bind].
+  rewrite column_list by reflexivity. cbn [bind]. rewrite column_leaf by (try assumption; now apply jagT_notbad). cbn [bind].
+  rewrite map_snd_pair, map_snd_repeat. replace (Z.to_nat (zlen l1)) with (length l1) by (unfold zlen; lia).
+  destruct t2 as [| |[z|] [b|] t0| | |]; try discriminate; reflexivity.
+Qed.
+Lemma spec_row_NL op fuel t1 t2 x l2 :
+  jagT t1 = true -> jagT t2 = true -> is_listT t1 = false -> is_optT t1 = false -> is_listT t2 = true ->
+  spec_v op false (S fuel) [(t1, x); (t2, VList l2)] =
+  rmap VList (mapM (spec_v op false fuel) (rows2 t1 (elemT t2) (repeat x (length l2)) l2)).
+Proof.
+  intros H1 H2 L1 O1 L2.
+  assert (O2 : is_optT t2 = false) by (destruct t2 as [| |[z|] [b|] t0| | |]; try discriminate; reflexivity).
+  rewrite spec_list_row by (try assumption; now rewrite L2, orb_true_r).
+  rewrite (jagT_list_form t2 H2 L2) at 1 2.
+  assert (Hf : first_var_len [(t1, x); (TList None None (elemT t2), VList l2)] = Ok (zlen l2)).
+  { destruct t1 as [| |[z|] [b|] t0| | |]; try discriminate; reflexivity. }
+  rewrite Hf. cbn [bind]. rewrite column_leaf by (try assumption; now apply jagT_notbad). cbn [bind].
+  rewrite column_list by reflexivity. cbn [bind].
+  rewrite map_snd_pair, map_snd_repeat. replace (Z.to_nat (zlen l2)) with (length l2) by (unfold zlen; lia).
+  destruct t1 as [| |[z|] [b|] t0| | |]; try discriminate; reflexivity.
+Qed.
+
+Lemma zip_rep_each {A B C} (G : list A * list B -> C) (ls : list (list A)) : forall (vs : list B),
+  map G (zip ls (rep_each vs (map zlen ls))) = map (fun p => G (fst p, repeat (snd p) (length (fst p)))) (zip ls vs).
+Proof.
+  induction ls as [|l ls IH]; intros [|v vs]; try reflexivity. unfold rep_each in *. cbn [map zip fst snd].
+  f_equal; [|apply IH]. now replace (Z.to_nat (zlen l)) with (length l) by (unfold zlen; lia).
+Qed.
+Lemma zip_rep_each_l {A B C} (G : list B * list A -> C) (ls : list (list A)) : forall (vs : list B),
+  map G (zip (rep_each vs (map zlen ls)) ls) = map (fun p => G (repeat (fst p) (length (snd p)), snd p)) (zip vs ls).
+Proof.
+  induction ls as [|l ls IH]; intros [|v vs]; try reflexivity. unfold rep_each in *. cbn [map zip fst snd].
+  f_equal; [|apply IH]. now replace (Z.to_nat (zlen l)) with (length l) by (unfold zlen; lia).
+Qed.
+Lemma zlen_rep_each {A} (vs : list A) : forall counts, Forall (fun k => 0 <= k) counts -> length counts = length vs ->
+  map zlen (rep_each vs counts) = counts.
+Proof.
+  induction vs as [|v vs IH]; intros [|k counts] Hc H; try discriminate; [reflexivity|]. unfold rep_each in *. cbn [zip map fst snd].
+  inversion Hc; subst. f_equal; [unfold zlen; rewrite repeat_length; lia|]. apply IH; [assumption|cbn in H; lia].
+Qed.
+Lemma zlen_all_nonneg {A} (ls : list (list A)) : Forall (fun k => 0 <= k) (map zlen ls).
+Proof. apply Forall_forall. intros k Hk. apply in_map_iff in Hk as (l & <- & _). apply zlen_nonneg. Qed.
+Lemma zip_lens_in {A B} (l1 : list (list A)) : forall (l2 : list (list B)) a b,
+  map zlen l1 = map zlen l2 -> In (a, b) (zip l1 l2) -> zlen b = zlen a.
+Proof.
+  induction l1 as [|x l1 IH]; intros [|y l2] a b H Hin; try contradiction. cbn [map] in H. inversion H.
+  destruct Hin as [E|Hin]; [inversion E; subst; lia|eapply IH; eassumption].
+Qed.
